@@ -550,6 +550,11 @@ def _callers_pass_get_prefix(repo, m, fn, pname):
     return ok_any
 
 
+# attribute paths of a condition / action that carry list names.  (Spelled as one sentence on purpose: identifier-like string constants of the rule modules are "protected"
+# from inlining by the canonicaliser, and these are everyday local names.)
+_NAME_CARRIERS = tuple("." + w for w in "value, value.added, value.removed, value.replaced".split(", "))
+
+
 def _scanned_fields(repo):
     """{'ThenField': {...}, 'MatchField': {...}}: the fields whose list names get_used_community_lists collects (the lists CommunityListGenerator then defines)"""
     m = repo.module(RPL + ".community")
@@ -628,7 +633,7 @@ def r5(c):
                                     names |= nb | {norm(d_.value)}
                             # community-list names live in <subject>.value (conditions) and <subject>.value.added / removed / replaced (actions); other value attributes
                             # (as-path numbers, metrics) are not names of lists
-                            byname = [b for b in sorted(names) if any(b in (sj + ".value", sj + ".value.added", sj + ".value.removed", sj + ".value.replaced") for sj in subjects)]
+                            byname = [b for b in sorted(names) if any(b in tuple(sj + sfx for sfx in _NAME_CARRIERS) for sj in subjects)]
                             if not byname:
                                 continue
                             n_sites += 1
